@@ -129,6 +129,39 @@ theorem Spec.run_cap : ∀ (ops : List (Op α)) (s : Spec α), (Spec.run s ops).
       · next h => rw [h]
       · rfl
 
+/-! ### across cycles: everything ever replayed is a subsequence of everything stored -/
+
+/-- the events passed to `store` during a history, in call order -/
+def storedOf : List (Op α) → List α
+  | [] => []
+  | .store x :: ops => x :: storedOf ops
+  | _ :: ops => storedOf ops
+
+theorem Spec.trace_sublist : ∀ (ops : List (Op α)) (s : Spec α),
+    (Spec.trace s ops).flatten.Sublist (s.pend ++ storedOf ops) := by
+  intro ops
+  induction ops with
+  | nil => intro s; simp [Spec.trace]
+  | cons op ops ih =>
+    intro s
+    cases op with
+    | store x =>
+      have := ih (s.step (.store x)).1
+      simp only [Spec.trace, Spec.step, List.flatten_cons, List.nil_append, storedOf] at this ⊢
+      simpa using this
+    | process =>
+      have := ih (s.step .process).1
+      simp only [Spec.trace, Spec.step, List.flatten_cons, storedOf, List.nil_append] at this ⊢
+      exact List.Sublist.append (lastN_suffix _ _).sublist this
+    | setCapacity c =>
+      simp only [Spec.trace, Spec.step, List.flatten_cons, List.nil_append, storedOf]
+      by_cases hc : s.cap = c
+      · simp only [hc, if_true]
+        exact ih s
+      · simp only [hc, if_false]
+        have := ih ({ cap := c, pend := [] } : Spec α)
+        exact List.Sublist.trans this (List.sublist_append_right _ _)
+
 /-! ### backend level -/
 
 /-- per logger: both have no storage, or the ring represents the specification state -/
